@@ -739,7 +739,9 @@ func (g *Gen) sliceExpr(t *Type, sc *Scope, depth int) string {
 	case 2:
 		if len(ps) > 0 {
 			p := ps[g.n(len(ps))]
-			return fmt.Sprintf("append(%s[:clamp(%s, len(%s))], %s...)", p, g.expr(g.U.TI, sc, depth-1), p, g.composite(t, sc, depth-1))
+			// (the capacity is cut with a full slice expression: whether an append into spare
+			// capacity that the implementation chose overwrites the shared array is not specified)
+			return fmt.Sprintf("append(cut(%s, %s), %s...)", p, g.expr(g.U.TI, sc, depth-1), g.composite(t, sc, depth-1))
 		}
 	case 3:
 		if f := g.fnReturning(t); f != nil {
